@@ -14,6 +14,24 @@ mapped expression branches on the mapped key (BranchMapGen: correspondence + ora
 (ClassGen / ClassOracle: oracle only - the Coq core model has no dataset classes).
 Failures inside the zone of a recorded finding (model ghost `dirty` = Model.EvalRun.clean_at is
 false for that expression and dictionary, and the model agrees with the implementation) are tagged.
+
+Further families (added after seeded changes the families above did not notice):
+  * LONG REFERENCE CHAINS (ChainGen): an option whose value reaches its final value through 6..64 template hops
+    (K100 = '{K101}', ... - pure aliases, links with literal text, links inside a section, a fork), read by an Option /
+    a templated default / a Template / a dataset / a dispatch; dictionaries = the chain with one link changed, cut,
+    deleted or redirected at a uniformly drawn position.  The unchanged library copes with about 90 hops at the top
+    level (then RecursionError); the model's resolution depth is 40, so chains of up to 36 hops go through the
+    correspondence, longer ones are ORACLE ONLY;
+  * USER-DEFINED EVALUATABLES (UserGen; labrea.types.Evaluatable is the documented extension point): third-party leaves
+    reading one top-level entry whose keys() hands out a set the leaf KEEPS (a plain set, a frozenset, a set subclass,
+    one set shared by two leaves through a registry, a fresh set as control) and a user subclass of Option overriding
+    keys(); the same leaf object sits in several graphs of one scenario (as a switch / overload / bind / case branch,
+    coalesce member, option default, argument, element, under cached / WithOptions / Map / apply / Template) and the
+    history alternates between the graphs.  The model sees such a leaf as Option(key) (its functional behaviour; the
+    aliasing of the returned set is not expressible), which puts these histories through the correspondence;
+  * LIVE HISTORIES (live_failures): clause (1) is also evaluated on every successful keys() operation of every history on
+    the long-lived graphs (not only on freshly built copies), so that state carried from one graph / call to another
+    is seen.
 """
 import json
 import os
@@ -205,7 +223,7 @@ class Oracle:
                 if not cp.same_outcome(ev, ev_raw, e2, e2_raw):
                     self.fails.append(dict(kind="same reported keys and values, different outcome", idx=idx, o=o, o2=o2,
                                            keys=kl, a=cp.outcome(ev), b=cp.outcome(e2)))
-            for k in K[:3]:
+            for k in (K[:3] + [k for k in K[-2:] if k not in K[:3]]):      # (the first AND the last reported keys)
                 o3 = set_path(o, k, 424242)
                 if o3 is None:
                     continue
@@ -245,12 +263,13 @@ import core, coreprop as cp
 from props import c03
 cases = json.load(open(%(path)r))
 out = []
-for scn_repr, idx, o_repr in cases:
-    scn = cp.load_scn(scn_repr); o = cp.load_scn(o_repr)
-    try:
-        out.append(c03.oracle_for(scn).fingerprint(idx, o).hex())
-    except Exception as e:
-        out.append("ERR:" + type(e).__name__)
+with c03.user_nodes():
+    for scn_repr, idx, o_repr in cases:
+        scn = cp.load_scn(scn_repr); o = cp.load_scn(o_repr)
+        try:
+            out.append(c03.oracle_for(scn).fingerprint(idx, o).hex())
+        except Exception as e:
+            out.append("ERR:" + type(e).__name__)
 print(json.dumps(out))
 """
 
@@ -562,6 +581,376 @@ class ClassOracle(Oracle):
             return cls.fingerprint(core.py_json(o))
 
 
+# ---- long reference chains ------------------------------------------------------------------------------------
+#
+# evaluate() follows a chain of templated option values to its end (confectioner's resolve), so keys() has to report every
+# link, however long the chain is (within what the unchanged library can follow at all: about 90 hops at the top level,
+# see the module docstring).  CH.. are atoms nothing else uses; the dictionaries are neighbours of the complete chain in
+# which ONE link, at a uniformly drawn position, is changed / cut short / deleted / redirected.
+
+CH = 100            # the links are the option names K100, K101, ...
+CSEC = 99           # ... or live inside the section K99
+MODEL_HOPS = 36     # Model/EvalRun.v default_fuel = 40: longer chains are outside what the model resolves
+
+
+class ChainGen(gen.Gen):
+    def scenario_chain(self, hops, n_ops=8):
+        rng = self.rng
+        n = hops
+        sect = rng.random() < 0.25
+        link = (lambda i: gen.K(CSEC, CH + i)) if sect else (lambda i: gen.K(CH + i))
+        style = rng.choice(["alias", "alias", "text", "mixed"])
+
+        def linkval(i, to=None):
+            ref = ("ref", link(i + 1 if to is None else to))
+            if style == "alias" or (style == "mixed" and rng.random() < 0.7):
+                return S(ref)
+            return S(ref, ("lit", rng.choice("ab/"))) if rng.random() < 0.5 else S(("lit", rng.choice("ab/")), ref)
+        last = rng.choice([1, 2, lit("x"), lit("b"), None, True])
+        vals = [linkval(i) for i in range(n)] + [last]
+        fork = None
+        if n >= 4 and rng.random() < 0.2:      # one link refers to a second, short chain as well (two references in one value)
+            at, m = rng.randrange(n), rng.randint(1, 4)
+            fork = (at, m)
+            vals[at] = S(*(vals[at].toks + (("ref", gen.K(CH + 500)),)))
+
+        def full():
+            flat = {CH + i: v for i, v in enumerate(vals)}
+            o = {CSEC: flat} if sect else dict(flat)
+            if fork:
+                for t in range(fork[1]):
+                    o[CH + 500 + t] = S(("ref", gen.K(CH + 501 + t)))
+                o[CH + 500 + fork[1]] = lit("f")
+            o[gen.FLAT[1]] = 1
+            return o
+
+        def edit(i, v, delete=False):
+            o = full()
+            d = dict(o[CSEC]) if sect else o
+            if delete:
+                d.pop(CH + i, None)
+            else:
+                d[CH + i] = v
+            if sect:
+                o[CSEC] = d
+            return o
+        base = full()
+        entry = ("option", link(0), None, None)
+        w = rng.random()
+        if w < 0.30:
+            root = entry
+        elif w < 0.42:       # the chain starts in the (templated) default of another option
+            root = ("option", gen.K(gen.FLAT[0]), ("template", (("ref", link(0)),), []), None)
+        elif w < 0.54:
+            root = ("template", (("lit", "p"), ("ref", link(0))), [])
+        elif w < 0.70:
+            self.env[1] = dict(fid=self.newf(("tag",)), kwargs=[entry] + ([("option", gen.K(gen.FLAT[1]), ("value", ("j", 0)), None)] if rng.random() < 0.4 else []))
+            root = ("dataset", 1)
+        elif w < 0.80:       # the value at the end of the chain selects a branch
+            root = ("switch", entry, [(("j", last), ("option", gen.K(gen.FLAT[1]), ("value", ("j", 0)), None))], ("value", ("j", lit("dflt"))))
+        elif w < 0.88:
+            root = ("call", self.newf(("tag",)), [entry, ("option", gen.K(gen.FLAT[1]), ("value", ("j", 0)), None)])
+        elif w < 0.94:
+            root = ("cached", 50, entry)
+        else:
+            root = ("list", [entry, ("option", link(n // 2), None, None)])
+        pos = lambda: rng.randrange(n + 1)
+        pool = [base,
+                edit(n, rng.choice([7, lit("z"), lit("y")])),                       # another final value
+                edit(pos(), rng.choice([7, lit("z")])),                             # the chain cut short by a constant
+                edit(pos(), None, delete=True),                                     # a link missing
+                {**base, 92: 1},                                                    # (a name nothing mentions; not the oracle's FRESH names)
+                dict(reversed(list(base.items())))]
+        i = rng.randrange(n)
+        pool.append(edit(i, linkval(i, to=rng.randint(i + 1, n))))                  # a link redirected further down
+        if n >= 2:
+            pool.append(edit(rng.randint(n // 2, n), rng.choice([0, lit("w")])))    # a change in the far half
+        pool.append({})
+        ops = [("keys", 0, False, False, base), ("evaluate", 0, False, False, base), ("keys", 0, False, False, pool[1]), ("evaluate", 0, False, False, pool[1])]
+        for _ in range(max(0, n_ops - 4)):
+            ops.append((rng.choice(("keys", "keys", "evaluate", "evaluate", "validate", "explain")), 0, False, False, rng.choice(pool)))
+        scn = dict(ftable=dict(self.ftable), env=dict(self.env), exprs=[root], ops=ops, chain_hops=n)
+        if n > MODEL_HOPS:
+            scn["oracle_only"] = True
+        return scn
+
+
+def generate_chains(rng, n):
+    """hop counts spread over the whole range the library supports"""
+    out = []
+    for i in range(n):
+        lo, hi = [(6, 20), (21, MODEL_HOPS), (MODEL_HOPS + 1, 50), (51, 64)][i % 4]
+        out.append(ChainGen(rng).scenario_chain(rng.randint(lo, hi)))
+    return out
+
+
+# ---- user-defined Evaluatables ---------------------------------------------------------------------------------
+#
+# ("user", uid) is a node of the scenario language that exists in this module only: env["users"][uid] = dict(key=<atom of a
+# top-level option name>, container=<how keys() builds its result>).  The Builder keeps ONE object per uid, so the same leaf
+# object is shared by every graph of the scenario that mentions it.  Values under the user keys are never templated, so
+# the leaf behaves as Option(key) does - which is how the model sees it.
+
+UKEYS = [50, 51, 52]
+CONTAINERS = ("set", "set", "frozenset", "subclass", "registry", "fresh", "optsub")
+_USER_CLASSES = {}
+
+
+def user_classes():
+    import labrea
+    if _USER_CLASSES.get("for") is not labrea:
+        from typing import Optional, Set
+        from labrea import Option
+        from labrea.exceptions import KeyNotFoundError
+        from labrea.types import Evaluatable, Options
+
+        class KeySet(set):
+            """a third party's own container"""
+
+        class Setting(Evaluatable):
+            """a third-party leaf: reads one top-level entry of the options; fulfils the Cacheable contract (only keys
+            present in the options, KeyNotFoundError otherwise) and hands out the key set it keeps"""
+
+            def __init__(self, key, stored):
+                self.key = key
+                self.stored = stored
+
+            def evaluate(self, options: Options):
+                if self.key not in options:
+                    raise KeyNotFoundError(self.key, self)
+                return options[self.key]
+
+            def validate(self, options: Options) -> None:
+                if self.key not in options:
+                    raise KeyNotFoundError(self.key, self)
+
+            def keys(self, options: Options) -> Set[str]:
+                if self.key not in options:
+                    raise KeyNotFoundError(self.key, self)
+                return {self.key} if self.stored is None else self.stored
+
+            def explain(self, options: Optional[Options] = None) -> Set[str]:
+                return {self.key}
+
+            def __repr__(self):
+                return f"Setting({self.key!r})"
+
+        class StoredKeysOption(Option):
+            """a user subclass of a library class overriding one method: keys() of a value that is present comes from a
+            set computed once"""
+
+            def __init__(self, key):
+                super().__init__(key)
+                self.stored = {key}
+
+            def keys(self, options: Options) -> Set[str]:
+                if self.key in options and not isinstance(options[self.key], str):
+                    return self.stored
+                return super().__labrea_keys__(options)
+        _USER_CLASSES.update({"for": labrea, "KeySet": KeySet, "Setting": Setting, "StoredKeysOption": StoredKeysOption})
+    return _USER_CLASSES
+
+
+def user_builder_class(base):
+    class UserBuilder(base):
+        def __init__(self, world, env):
+            super().__init__(world, env)
+            self.users = {}
+            self.registry = {}      # key -> the one set every "registry" leaf of that key hands out
+
+        def build(self, e):
+            if e[0] != "user":
+                return super().build(e)
+            uid = e[1]
+            if uid not in self.users:
+                C = user_classes()
+                spec = self.env["users"][uid]
+                key, how = core.name_of(spec["key"]), spec["container"]
+                if how == "optsub":
+                    obj = C["StoredKeysOption"](key)
+                else:
+                    stored = {"set": lambda: {key}, "frozenset": lambda: frozenset({key}), "subclass": lambda: C["KeySet"]({key}),
+                              "registry": lambda: self.registry.setdefault(key, {key}), "fresh": lambda: None}[how]()
+                    obj = C["Setting"](key, stored)
+                self.users[uid] = obj
+            return self.users[uid]
+    return UserBuilder
+
+
+def user_printer_class(base):
+    class UserPrinter(base):
+        def expr(self, e):
+            if e[0] == "user":      # its functional behaviour: Option(key) without default
+                return f"(EOption {core.coq_key(gen.K(self.env['users'][e[1]]['key']))} None None)"
+            return super().expr(e)
+    return UserPrinter
+
+
+class user_nodes:
+    """while active, core.run_impl / core.coq_scenario (and everything built on them) know the ("user", uid) node"""
+
+    def __enter__(self):
+        self.orig = (core.Builder, core.CoqPrinter)
+        core.Builder, core.CoqPrinter = user_builder_class(core.Builder), user_printer_class(core.CoqPrinter)
+
+    def __exit__(self, *a):
+        core.Builder, core.CoqPrinter = self.orig
+
+
+class UserGen(gen.Gen):
+    def __init__(self, rng, **kw):
+        super().__init__(rng, with_domains=False, with_alloptions=False, **kw)
+        self.users = {}
+        for uid in range(1, rng.randint(2, 3) + 1):
+            self.users[uid] = dict(key=rng.choice(UKEYS), container=rng.choice(CONTAINERS))
+        self.p_user = 0.4
+
+    def user(self):
+        self.note("user")
+        return ("user", self.rng.choice(list(self.users)))
+
+    def leaf(self):
+        if self.rng.random() < self.p_user:
+            return self.user()
+        return super().leaf()
+
+    def option(self, depth=0):
+        e = super().option(depth)
+        if e[2] is None and e[3] is None and self.rng.random() < 0.15:
+            return ("option", e[1], self.user(), None)         # a user leaf as the option's default
+        return e
+
+    def dispatching(self):
+        """(graph, need): a graph in which a user leaf sits DIRECTLY below a node that consults something else first; `need` =
+        the entries (None = absent) under which the leaf is the part that gets consulted"""
+        rng = self.rng
+        u = self.user
+        dk = rng.choice(gen.FLAT)
+        disp = ("option", gen.K(dk), ("value", ("j", rng.choice([1, 2]))) if rng.random() < 0.3 else None, None)
+        vals = rng.sample([1, 2, lit("a"), None], 2)
+        other = lambda: rng.choice([u(), ("value", ("j", gen.rand_scalar(rng))), ("option", gen.K(gen.FLAT[2]), ("value", ("j", 0)), None)])
+        kind = rng.choice(["switch", "switch", "overload", "overload", "bind", "case", "coalesce", "default", "with", "map", "cached", "apply",
+                           "template", "list", "pipe", "comp"])
+        self.note("user_below_" + kind)
+        if kind == "switch":
+            return ("switch", disp, [(("j", vals[0]), u()), (("j", vals[1]), other())], other() if rng.random() < 0.6 else None), {dk: vals[0]}
+        if kind == "overload":
+            d = max([k for k in self.env if isinstance(k, int)], default=0) + 1
+            self.env[d] = dict(fid=self.newf(("tag",)), kwargs=[other()] if rng.random() < 0.5 else [], dispatch=disp,
+                               overloads=[(("j", vals[0]), u()), (("j", vals[1]), other())])
+            if rng.random() < 0.3:
+                self.env[d]["cache"] = "none"
+            return ("dataset", d), {dk: vals[0]}
+        if kind == "bind":
+            return ("bind", disp, [(("j", vals[0]), u())], other()), {dk: vals[0]}
+        if kind == "case":
+            return ("case", disp, [(("fnvalue", self.newf(("eq", ("j", vals[0])))), u())], other() if rng.random() < 0.6 else None), {dk: vals[0]}
+        if kind == "coalesce":
+            return ("coalesce", [("option", gen.K(dk), None, None), u()]), {dk: None}
+        if kind == "default":
+            return ("option", gen.K(dk), u(), None), {dk: None}
+        if kind == "with":
+            return ("with", rng.random() < 0.5, {dk: rng.choice([1, 2])}, u()), {}
+        if kind == "map":
+            return ("tolist", ("map", u(), [(gen.K(dk), ("value", ("j", [1, 2])))])), {}
+        if kind == "cached":
+            return ("cached", 60, ("call", self.newf(("tag",)), [disp, u()])), {}
+        if kind == "apply":
+            return ("apply", u(), ("pstep", self.newf(("tag",)), [disp])), {}
+        if kind == "template":
+            return ("template", (("lit", "p"), ("ref", gen.K(dk)), ("par", 1)), [(1, u())]), {}
+        if kind == "list":
+            return (rng.choice(["list", "tuple"]), [disp, u(), other()]), {}
+        if kind == "pipe":
+            return ("apply", disp, ("pstep", self.newf(("tag",)), [u()])), {}
+        return ("comp", u(), [("pstep", self.newf(("tag",)), [])]), {}
+
+    def plain(self):
+        """an unrelated graph using the same leaf with nothing else around it"""
+        rng = self.rng
+        u = self.user
+        r = rng.random()
+        if r < 0.35:
+            d = max([k for k in self.env if isinstance(k, int)], default=0) + 1
+            self.env[d] = dict(fid=self.newf(("tag",)), kwargs=[u()])
+            if rng.random() < 0.3:
+                self.env[d]["cache"] = "none"
+            return ("dataset", d)
+        if r < 0.6:
+            return u()
+        if r < 0.8:
+            return ("call", self.newf(("tag",)), [u()])
+        return ("list", [u()])
+
+    def scenario_user(self, n_ops=14):
+        """the history alternates: something is asked of a dispatching graph (mostly under a dictionary in which the shared leaf
+        is what gets consulted), then keys() of an unrelated graph under a dictionary holding nothing but what the leaves read"""
+        rng = self.rng
+        roots, needs, plains = [], {}, []
+        for _ in range(rng.randint(1, 2)):
+            e, need = self.dispatching()
+            needs[len(roots)] = need
+            roots.append(e)
+        for _ in range(rng.randint(1, 2)):
+            plains.append(len(roots))
+            roots.append(self.plain())
+        if rng.random() < 0.4:
+            roots.append(self.expr(2, root=True))
+        uvals = [0, 1, 2, 5, True, None, lit("a"), lit("b"), [1, 2]]
+        only_users = {spec["key"]: rng.choice(uvals) for spec in self.users.values()}      # nothing but what the leaves read
+        rich = dict(only_users)
+        for k in gen.FLAT:
+            rich[k] = rng.choice([1, 2, lit("a")])
+
+        def under(need):
+            o = dict(rich)
+            for k, v in need.items():
+                if v is None:
+                    o.pop(k, None)
+                else:
+                    o[k] = v
+            return o
+        pool = [rich, only_users, {**rich, rng.choice(sorted(only_users)): rng.choice(uvals)}, {k: v for k, v in rich.items() if k not in only_users}]
+        pool += [{**o, **only_users} for o in self.dict_pool()[:3]]
+        ops = [("keys", rng.choice(plains), False, False, dict(only_users))]
+        while len(ops) < n_ops:
+            r = rng.random()
+            if r < 0.7:
+                i = rng.choice(sorted(needs))
+                o = under(needs[i]) if rng.random() < 0.8 else dict(rng.choice(pool))
+                ops.append((rng.choice(("keys", "keys", "evaluate", "evaluate", "validate", "explain")), i, False, False, o))
+                lean = dict(only_users)
+                if rng.random() < 0.3:      # ... plus an entry neither graph's dispatch reads
+                    lean[92] = 1
+                ops.append(("keys" if rng.random() < 0.8 else "evaluate", rng.choice(plains), False, False, lean))
+            else:
+                ops.append((rng.choice(("keys", "evaluate", "validate", "explain")), rng.randrange(len(roots)), False, False, dict(rng.choice(pool))))
+        env = dict(self.env)
+        env["users"] = dict(self.users)
+        return dict(ftable=dict(self.ftable), env=env, exprs=roots, ops=ops[:n_ops + 1], user_kinds=dict(self.kinds))
+
+
+def generate_users(rng, n):
+    return [UserGen(rng, preset_on_ds=0.0).scenario_user() for _ in range(n)]
+
+
+def live_failures(scn, il):
+    """clause (1) on the LONG-LIVED graphs of a history: every key reported by a successful keys() operation is present in
+    that operation's dictionary - whatever was asked of this graph, or of any other graph, before"""
+    out = []
+    for j, (op, line) in enumerate(zip(scn["ops"], il)):
+        if op[0] != "keys":
+            continue
+        K = parse_keys(line)
+        if not K:
+            continue
+        missing = [core.key_text(k) for k in K if lookup(op[4], k)[0] != "found"]
+        if missing:
+            out.append(dict(kind="reported key not present", idx=op[1], o=op[4], keys=cp.split(line)[0], absent=missing, op_index=j,
+                            where="long-lived graph, after the earlier operations of the history"))
+    return out
+
+
 def generate_classes(ctx, n):
     return [ClassGen(ctx.rng).scenario_class() for _ in range(n)]
 
@@ -593,32 +982,60 @@ def restrict_correspondence(ctx, items):
 
 
 def run(ctx):
+    with user_nodes():
+        return run_(ctx)
+
+
+def run_(ctx):
+    import random
     n = 700 if ctx.quick else 6000
     corpus = corpus_for(PID)
     branch = generate_branchmaps(ctx, 120 if ctx.quick else 1200)
-    scns = [s for _, s in corpus] + generate(ctx, n) + branch
-    impls, models, mism, stats = cp.correspondence(ctx, scns, "Cases_C03")
-    n_core = len(scns)
+    old = [s for _, s in corpus] + generate(ctx, n) + branch
+    # the later families draw from a generator of their own (seeded by VERIF_SEED as well), so that the streams above stay
+    # what they were for every seed
+    rng2 = random.Random(f"{ctx.seed}-C03-chains-users")
+    chains = generate_chains(rng2, 48 if ctx.quick else 480)
+    users = generate_users(rng2, 150 if ctx.quick else 1500)
+    long_chains = [s for s in chains if s.get("oracle_only")]
+    added = [s for s in chains if not s.get("oracle_only")] + users
+    impls, models, mism, stats = cp.correspondence(ctx, old + added, "Cases_C03")
+    n_core = len(old)
     # dataset classes: oracle only (their members are ordinary expressions, but the class itself is not modelled)
     classes = generate_classes(ctx, 80 if ctx.quick else 800)
-    scns = scns + classes
-    impls = impls + [None] * len(classes)
-    models = models + [None] * len(classes)
+    # chains longer than the model's resolution depth: oracle only as well
+    long_impls = [core.run_impl(s) for s in long_chains]
+    scns = old + classes + added + long_chains
+    impls = impls[:n_core] + [None] * len(classes) + impls[n_core:] + long_impls
+    models = models[:n_core] + [None] * len(classes) + models[n_core:] + [None] * len(long_chains)
+    directed_from = n_core - len(branch)
     violations, distinct, tagged = [], set(), {}
-    totals, restr, fpcases = {}, [], []
+    totals, restr, fpcases, restr_new, fp_new = {"live_present": 0}, [], [], [], []
     for si, (scn, il, ml) in enumerate(zip(scns, impls, models)):
         orc = oracle_for(scn)
         # directed scenarios: the base dictionary (first operation) is always examined
-        orc.run(ctx.rng, first=[(scn["ops"][0][1], scn["ops"][0][4])] if si >= n_core - len(branch) else ())   # (dataset classes too)
+        orc.run(ctx.rng, first=[(scn["ops"][0][1], scn["ops"][0][4])] if si >= directed_from else ())   # (dataset classes too)
+        if il is not None:      # clause (1) on the long-lived graphs of the history
+            totals["live_present"] += sum(1 for op, l in zip(scn["ops"], il) if op[0] == "keys" and cp.split(l)[0].startswith("ok:"))
+            orc.fails = live_failures(scn, il)[:2] + orc.fails
         for k, v in orc.checks.items():
             totals[k] = totals.get(k, 0) + v
-        restr += orc.restrictions
-        fpcases += [(scn, i, o, h) for i, o, h in orc.fp_cases[:1]]
+        if si >= n_core + len(classes):
+            restr_new += orc.restrictions[:4]
+            fp_new += [(scn, i, o, h) for i, o, h in orc.fp_cases[:1]]
+        else:
+            restr += orc.restrictions
+            fpcases += [(scn, i, o, h) for i, o, h in orc.fp_cases[:1]]
         if orc.checks["present"]:
             distinct.add(lib.stable_hash(cp.dump_scn(scn)))
         if orc.fails and "cls_names" in scn:      # no model, no recorded finding concerns dataset classes
             for f in orc.fails[:3]:
                 violations.append(dict(desc="dataset class: " + f["kind"], detail={k: repr(v)[:600] for k, v in f.items() if k != "kind"},
+                                       finding=None, scenario_repr=cp.dump_scn(scn), idx=f["idx"], o_repr=repr(f["o"])))
+        elif orc.fails and ml is None:            # outside the model (a chain longer than its resolution depth): nothing to tag with
+            for f in orc.fails[:3]:
+                violations.append(dict(desc=f"reference chain of {scn.get('chain_hops')} hops: " + f["kind"],
+                                       detail={k: repr(v)[:600] for k, v in f.items() if k != "kind"},
                                        finding=None, scenario_repr=cp.dump_scn(scn), idx=f["idx"], o_repr=repr(f["o"])))
         elif orc.fails:
             pairs = []
@@ -646,9 +1063,9 @@ def run(ctx):
                     tagged[finding] = tagged.get(finding, 0) + 1
                 violations.append(dict(desc=f["kind"], detail={k: repr(v)[:600] for k, v in f.items() if k != "kind"},
                                        finding=finding, scenario_repr=cp.dump_scn(scn), idx=f["idx"], o_repr=repr(f["o"])))
-    n_restr, rmism = restrict_correspondence(ctx, restr[: (1500 if ctx.quick else 12000)])
+    n_restr, rmism = restrict_correspondence(ctx, restr[: (1500 if ctx.quick else 12000)] + restr_new[: (300 if ctx.quick else 3000)])
     seeds = [1, 2, 4242] if ctx.quick else list(range(1, 33))
-    n_hs, hs_fails = hashseed_run(ctx, fpcases[: (150 if ctx.quick else 1200)], seeds)
+    n_hs, hs_fails = hashseed_run(ctx, fpcases[: (150 if ctx.quick else 1200)] + fp_new[: (40 if ctx.quick else 400)], seeds)
     for f in hs_fails:
         violations.append(dict(desc=f["kind"], detail={k: repr(v)[:400] for k, v in f.items()}, finding=None,
                                scenario_repr=f.get("scenario_repr"), idx=f.get("idx"), o_repr=repr(f.get("o"))))
@@ -681,6 +1098,10 @@ def run(ctx):
                 "plus a directed family of Maps whose mapped expression branches on the mapped key (switch / bind / case-when / overloaded dataset / "
                 "templated element values; dictionaries = single-key neighbours of one holding every branch key), and, for the oracle only, dataset "
                 "classes over zone-free member expressions (public, underscore-prefixed, inherited and unannotated members); "
+                "reference chains of 6..64 template hops (up to 36 in the correspondence, longer ones oracle only) with one link changed / cut / "
+                "deleted / redirected; graphs sharing user-defined Evaluatable leaves whose keys() hands out a stored set / frozenset / set subclass "
+                "(histories alternating between a dispatching graph and an unrelated one; presence of every reported key also checked on the "
+                "long-lived graphs of every history); "
                 "fingerprint bytes re-computed in fresh processes under other PYTHONHASHSEEDs; non-trivial = keys() succeeded on at least one pair; "
                 "distinct by scenario hash",
         "samples": [dict(exprs=repr(s["exprs"])[:300], first_ops=[repr(o)[:140] for o in s["ops"][:2]], observed=il[:2])
@@ -691,6 +1112,11 @@ def run(ctx):
         "known": known,
         "distribution": dict(stats, oracle_checks=totals, tagged=tagged, scenarios=len(scns), restrict_cases=n_restr,
                              branching_map_scenarios=len(branch), dataset_class_scenarios_oracle_only=len(classes),
+                             reference_chain_scenarios=dict(in_correspondence=len(chains) - len(long_chains), oracle_only=len(long_chains),
+                                                            hops=sorted(s["chain_hops"] for s in chains)),
+                             user_evaluatable_scenarios=len(users),
+                             user_leaf_containers={c: sum(1 for s in users for u in s["env"]["users"].values() if u["container"] == c)
+                                                   for c in sorted(set(CONTAINERS))},
                              hashseed_comparisons=n_hs, hashseeds=seeds),
         "exhaustive": False,
         "assumptions": ["user code is deterministic; cyclic template references excluded; floats not generated",
@@ -722,6 +1148,11 @@ def d6_raw_typeerror():
 
 
 def replay(ctx, payload):
+    with user_nodes():
+        return replay_(ctx, payload)
+
+
+def replay_(ctx, payload):
     scn = cp.load_scn(payload["scenario_repr"])
     import random
     if "cls_names" in scn:                       # dataset class: oracle only
@@ -730,9 +1161,11 @@ def replay(ctx, payload):
         return bool(orc.fails), dict(oracle_failures=[{k: repr(v)[:300] for k, v in f.items()} for f in orc.fails[:5]],
                                      members=list(zip(scn["cls_names"], [repr(e)[:200] for e in scn["exprs"]])))
     il = core.run_impl(scn)
-    ml = ctx.coq_eval("Replay_C03", cp.REQ, "", [core.coq_scenario(scn)])[0].split(" ## ")
     orc = Oracle(scn)
     orc.run(random.Random(0), max_pairs=50)
-    fails = [f for f in orc.fails if payload.get("idx") is None or f["idx"] == payload["idx"]]
+    fails = [f for f in live_failures(scn, il) + orc.fails if payload.get("idx") is None or f["idx"] == payload["idx"]]
+    if scn.get("oracle_only"):                   # a reference chain longer than the model's resolution depth
+        return bool(fails), dict(oracle_failures=[{k: repr(v)[:300] for k, v in f.items()} for f in fails[:5]], impl=il)
+    ml = ctx.coq_eval("Replay_C03", cp.REQ, "", [core.coq_scenario(scn)])[0].split(" ## ")
     return bool(fails) or not cp.agrees(il, ml, scn), dict(oracle_failures=[{k: repr(v)[:300] for k, v in f.items()} for f in fails[:5]],
                                                           impl=il, model=[cp.strip_ghost(x) for x in ml])
